@@ -918,6 +918,25 @@ impl World {
                 let id = (self.bgs.len() - 1) as u32;
                 self.schedule(self.now + life_ns, Ev::BgEnd(id));
             }
+            Op::DeepTree { levels, name_len } => {
+                let base = self.procs[pi].env.get("TMPDIR").cloned().unwrap_or_else(|| "/nonexistent".into());
+                if let Ok(orig) = std::env::current_dir() {
+                    if std::env::set_current_dir(&base).is_ok() {
+                        let name = "d".repeat(name_len.max(1) as usize);
+                        for _ in 0..levels {
+                            if std::fs::create_dir(&name).is_err() || std::env::set_current_dir(&name).is_err() {
+                                break;
+                            }
+                        }
+                        let _ = std::fs::write("leaf.txt", b"");
+                        let _ = std::env::set_current_dir(&orig);
+                    }
+                }
+                self.log(LogEv::Touch {
+                    pid,
+                    path: format!("{}/<tree {} x {}>", base, levels, name_len),
+                });
+            }
             Op::CloseStdin => {
                 if let StdinSrc::Pipe(p) = std::mem::replace(&mut self.procs[pi].stdin, StdinSrc::Closed) {
                     let pp = &mut self.pipes[p];
@@ -935,6 +954,11 @@ impl World {
                     .cloned()
                     .unwrap_or_else(|| "/nonexistent".into());
                 let path = std::path::Path::new(&base).join(&rel);
+                if let Some(parent) = path.parent() {
+                    if parent != std::path::Path::new(&base) && std::path::Path::new(&base).is_dir() {
+                        let _ = std::fs::create_dir_all(parent);
+                    }
+                }
                 let _ = std::fs::write(&path, b"");
                 self.log(LogEv::Touch {
                     pid,
